@@ -316,5 +316,8 @@ func (r *Run) seedGlobal(g *ssa.Global, o *Object) {
 	if strings.HasPrefix(name, "sync.") {
 		return
 	}
+	if r.initOK[g.Pkg] {
+		return
+	}
 	o.Unseeded = true
 }
